@@ -185,6 +185,114 @@ Graph generateGraph(Rng &rng, const GraphParams &gp)
     return g;
 }
 
+long enumeratedGraphCount()
+{
+    return 3 * 4 * 3 * 4;
+}
+
+Graph enumeratedGraph(long index)
+{
+    long layout = index % 3;
+    long rootImports = (index / 3) % 4; // 0 units, 1 component, 2 both in one import element, 3 both in separate elements
+    long depth = (index / 12) % 3; // 0 imported entity is a local leaf, 1 it is itself imported from f2, 2 it is local but needs an entity imported from f2
+    long encaps = (index / 36) % 4; // 0 none, 1 root's import component has a local child in root, 2 f1's component has a local child, 3 f1's component has an imported child (from f2)
+    Graph g;
+    auto file = [&](const std::string &dir, const std::string &name, const std::string &model) {
+        FileSpec f;
+        f.dir = dir;
+        f.path = dir + name + ".cellml";
+        f.modelName = model;
+        return f;
+    };
+    std::string d1 = layout == 0 ? "/w/" : "/w/a/";
+    std::string d2 = layout == 2 ? "/w/b/" : d1;
+    FileSpec root = file("/w/", "root", "m0"), f1 = file(d1, "f1", "m1"), f2 = file(d2, "f2", "m2");
+    bool needF2 = depth != 0 || encaps == 3;
+    // f2: a leaf library
+    f2.units.push_back({"u2", false, "", "", -1, {"second", "metre"}});
+    {
+        CompSpec c;
+        c.name = "c2";
+        c.vars.push_back({"v0", "u2"});
+        c.cn.push_back("u2");
+        f2.comps.push_back(c);
+    }
+    // f1
+    bool wantUnits = rootImports != 1, wantComp = rootImports != 0;
+    if (depth == 1) {
+        f1.units.push_back({"u1", true, hrefBetween(f1.dir, f2.path), "u2", 2, {}});
+    } else if (depth == 2) {
+        f1.units.push_back({"iu1", true, hrefBetween(f1.dir, f2.path), "u2", 2, {}});
+        f1.units.push_back({"u1", false, "", "", -1, {"kilogram", "iu1"}});
+    } else {
+        f1.units.push_back({"u1", false, "", "", -1, {"kilogram", "second"}});
+    }
+    {
+        CompSpec c;
+        c.name = "c1";
+        if (depth == 1 && wantComp) {
+            c.imported = true;
+            c.href = hrefBetween(f1.dir, f2.path);
+            c.ref = "c2";
+            c.targetFile = 2;
+        } else {
+            c.vars.push_back({"v0", "u1"});
+            c.cn.push_back("u1");
+        }
+        f1.comps.push_back(c);
+        if (encaps == 2) {
+            CompSpec k;
+            k.name = "c1_child";
+            k.parent = 0;
+            k.vars.push_back({"v0", "u1"});
+            f1.comps.push_back(k);
+        } else if (encaps == 3) {
+            CompSpec k;
+            k.name = "c1_child";
+            k.parent = 0;
+            k.imported = true;
+            k.href = hrefBetween(f1.dir, f2.path);
+            k.ref = "c2";
+            k.targetFile = 2;
+            f1.comps.push_back(k);
+        }
+    }
+    // root
+    root.groupImports = rootImports == 2;
+    if (wantUnits) {
+        root.units.push_back({"iu0", true, hrefBetween(root.dir, f1.path), "u1", 1, {}});
+    }
+    root.units.push_back({"u0", false, "", "", -1, wantUnits ? std::vector<std::string> {"volt", "iu0"} : std::vector<std::string> {"volt"}});
+    {
+        CompSpec c;
+        c.name = "c0";
+        c.vars.push_back({"v0", wantUnits ? "iu0" : "u0"});
+        root.comps.push_back(c);
+    }
+    if (wantComp) {
+        CompSpec c;
+        c.name = "ic0";
+        c.imported = true;
+        c.href = hrefBetween(root.dir, f1.path);
+        c.ref = "c1";
+        c.targetFile = 1;
+        root.comps.push_back(c);
+        if (encaps == 1) {
+            CompSpec k;
+            k.name = "c0_child";
+            k.parent = int(root.comps.size()) - 1;
+            k.vars.push_back({"v0", "u0"});
+            root.comps.push_back(k);
+        }
+    }
+    g.files.push_back(root);
+    g.files.push_back(f1);
+    if (needF2) {
+        g.files.push_back(f2);
+    }
+    return g;
+}
+
 static std::string importElement(const std::string &href, const std::vector<std::string> &children)
 {
     std::string s = "  <import xlink:href=\"" + href + "\">\n";
